@@ -239,6 +239,26 @@ func CmdDropShard(id uint64) Cmd { return mk(DropShard, fmt.Sprint(id), new(Buf)
 func CmdTruncate(ts int64) Cmd {
 	return mk(TruncateShardGroups, fmt.Sprintf("@%d", ts), new(Buf).Int(1, ts))
 }
+
+// EpochTruncation reports whether the metadata holds a shard group truncated
+// at exactly the Unix epoch (a truncation command at that time, or at an
+// earlier time on a group that starts there). The metadata encoding writes a
+// truncation time as nanoseconds since the epoch with 0 for "not truncated":
+// such a truncation is lost by every snapshot (a recorded finding; the site
+// names it).
+func EpochTruncation(d *meta.Data) bool {
+	for _, db := range d.Databases {
+		for _, rp := range db.RetentionPolicies {
+			for _, g := range rp.ShardGroups {
+				if !g.TruncatedAt.IsZero() && g.TruncatedAt.UnixNano() == 0 {
+					return true
+				}
+			}
+		}
+	}
+	return false
+}
+
 func CmdPrune() Cmd { return mk(PruneShardGroups, "", new(Buf)) }
 func CmdCopyShardOwner(id, node uint64) Cmd {
 	return mk(CopyShardOwner, fmt.Sprintf("shard %d -> node %d", id, node), new(Buf).Uint(1, id).Uint(2, node))
@@ -444,11 +464,13 @@ func CheckInvariants(prev, cur *meta.Data, seen *Ids) (class, detail string) {
 					if sh.ID > cur.MaxShardID {
 						return "id-counter-behind", fmt.Sprintf("shard id %d exceeds MaxShardID %d", sh.ID, cur.MaxShardID)
 					}
-					if !g.Deleted() {
-						for _, o := range sh.Owners {
-							if !nodes[o.NodeID] {
-								return "shard-owned-by-removed-node", fmt.Sprintf("shard %d of live group %d is owned by node %d which is not a data node", sh.ID, g.ID, o.NodeID)
+					for _, o := range sh.Owners {
+						if !nodes[o.NodeID] {
+							kind := "live"
+							if g.Deleted() {
+								kind = "deleted, not yet pruned"
 							}
+							return "shard-owned-by-removed-node", fmt.Sprintf("shard %d of %s group %d is owned by node %d which is not a data node", sh.ID, kind, g.ID, o.NodeID)
 						}
 					}
 				}
